@@ -53,10 +53,19 @@ func (e *orderEngine) step(ws []string) string {
 	case "livefollower": // livefollower delay=<ms>: a real Node (NewNode + Start) as follower of a scripted leader; see zz_verif_live.go
 		o := kv(ws[1:])
 		ms, _ := strconv.ParseUint(o["delay"], 10, 64)
-		dir := mustTempDir("bxhverif-live-")
-		defer rmDir(dir)
-		r, err := etcdraft.VerifLiveFollower(dir, time.Duration(ms)*time.Millisecond, quietLogger)
-		if err != nil {
+		// the run depends on real timers (raft ticks, the slowed store): an attempt that did not get through on a loaded machine —
+		// bootstrap not stored in time, nothing acknowledged or delivered — is repeated once; an early acknowledgement is never retried away
+		var r etcdraft.VerifLive
+		var err error
+		for attempt := 0; attempt < 2; attempt++ {
+			dir := mustTempDir("bxhverif-live-")
+			r, err = etcdraft.VerifLiveFollower(dir, time.Duration(ms)*time.Millisecond, quietLogger)
+			rmDir(dir)
+			if r.Early || (err == nil && r.Acked == 1 && r.Delivered == 2) {
+				break
+			}
+		}
+		if err != nil && !r.Early {
 			return "err " + err.Error()
 		}
 		early := 0
